@@ -540,6 +540,8 @@ def frame_leaf_matches(m: Model, leaf: Leaf, sc: FrameScenario) -> Tuple[bool, L
                     return False, []
             else:
                 free.append((atom, val))
+        elif tag == "in" and not _is_name_set_atom(atom):
+            free.append((atom, val))
         elif tag == "in":
             names = frozenset(atom[2])
             holds = sc.name in names
@@ -575,11 +577,16 @@ def frame_leaf_matches(m: Model, leaf: Leaf, sc: FrameScenario) -> Tuple[bool, L
     return True, free
 
 
+def _is_name_set_atom(atom: Any) -> bool:
+    return (isinstance(atom, tuple) and len(atom) == 3 and atom[0] == "in" and isinstance(atom[1], int)
+            and isinstance(atom[2], tuple) and all(isinstance(x, str) for x in atom[2]))
+
+
 def frame_name_classes(m: Model) -> List[str]:
     names = set(m.void) | set(m.noesc)
     for leaf in m.frame_leaves:
         for atom, val in leaf.atoms:
-            if isinstance(atom, tuple) and atom[0] == "in":
+            if _is_name_set_atom(atom):
                 names |= set(atom[2])
             if isinstance(atom, tuple) and atom[0] == "eq" and isinstance(atom[2], tuple) and atom[2][0] == "str":
                 names.add(atom[2][1])
